@@ -60,6 +60,7 @@ def main(argv=None):
     ap.add_argument('--write-baseline', action='store_true')
     ap.add_argument('--selftest', action='store_true', help='scratch-copy run: no evidence, no replay files under /verif')
     ap.add_argument('-v', action='store_true')
+    ap.add_argument('--only', help='debug: only units whose name contains this substring (evidence not written)')
     a = ap.parse_args(argv)
     prop = a.prop
     seed = int(os.environ.get('VERIF_SEED', '0') or 0)
